@@ -21,8 +21,19 @@ import (
 
 func init() { register("c09sub", "C09", "", suiteC09Sub) }
 
+// c09Churn: a closed, not yet collected child of ANOTHER identity sits in the (single) shard and one more thread runs a
+// report pass that collects it while the first users are between their probe and their write lock: the shard loses a
+// key while it gains one
+var c09Churn bool
+
 func runC09Sub(c *Ctx, ch Chooser, cached, tagged, reacquire bool, nThreads int) string {
 	w := newWorld(cached, 0, 1, false)
+	if c09Churn {
+		z := w.root.SubScope("zz")
+		w.inc(z.Counter("hits"), "zz.hits", 2)
+		z.(io.Closer).Close()
+		w.note("closed child zz holding 2")
+	}
 	obtain := func() tally.Scope {
 		if tagged {
 			return w.root.Tagged(map[string]string{"k": "v"})
@@ -52,6 +63,9 @@ func runC09Sub(c *Ctx, ch Chooser, cached, tagged, reacquire bool, nThreads int)
 			w.inc(sc.Counter("hits"), full, 1)
 		}))
 	}
+	if c09Churn {
+		thrs = append(thrs, s.Spawn("P", func() { tally.VerifReportOnce(w.root) }))
+	}
 	var trace []string
 	for {
 		var cand []*Thr
@@ -73,7 +87,7 @@ func runC09Sub(c *Ctx, ch Chooser, cached, tagged, reacquire bool, nThreads int)
 		}
 	}
 	s.Finish()
-	line := fmt.Sprintf("cached=%v tagged=%v closed-uncollected=%v threads=%d schedule: %s", cached, tagged, reacquire, nThreads, strings.Join(trace, " "))
+	line := fmt.Sprintf("cached=%v tagged=%v closed-uncollected=%v threads=%d churn=%v schedule: %s", cached, tagged, reacquire, nThreads, c09Churn, strings.Join(trace, " "))
 	fail := func(clause, why string) {
 		c.Cov.Fail(Failure{Kind: "violated", Clause: clause, Signature: "c09-subscope", Line: line, Reply: why})
 	}
@@ -211,7 +225,7 @@ func suiteC09Sub(c *Ctx) {
 			}
 		}
 	}
-	c.Cov.Rule = "2-3 threads ask a live parent for the same child scope (SubScope / Tagged; identity new, or that of a closed child not yet collected and still holding unreported values) at the same time, each parked before the read lock, before the write lock and in the removal hand-over; plain and cached reporter; oracle: one object for all callers, everything recorded delivered exactly once, at most one Allocate per scope object; all schedules for 2 threads (8 configurations, DFS), 3 threads sampled; plus two threads obtaining two DIFFERENT identities with keys of equal length at the same time on one P (all schedules; each scope must carry its own tags and stay the object later requests return); nontrivial = two threads were between probe and write lock at the same time; distinct by schedule"
+	c.Cov.Rule = "2-3 threads ask a live parent for the same child scope (SubScope / Tagged; identity new, or that of a closed child not yet collected and still holding unreported values) at the same time, each parked before the read lock, before the write lock and in the removal hand-over; plain and cached reporter; oracle: one object for all callers, everything recorded delivered exactly once, at most one Allocate per scope object; all schedules for 2 threads (8 configurations, DFS), 3 threads sampled; 2 first users plus a report pass that collects a closed child of ANOTHER identity from the same shard in between (all schedules, 4 configurations; sampled with 3 threads); plus two threads obtaining two DIFFERENT identities with keys of equal length at the same time on one P (all schedules; each scope must carry its own tags and stay the object later requests return); nontrivial = two threads were between probe and write lock at the same time; distinct by schedule"
 	for _, cached := range []bool{false, true} {
 		for _, tagged := range []bool{false, true} {
 			for _, re := range []bool{false, true} {
@@ -228,10 +242,29 @@ func suiteC09Sub(c *Ctx) {
 			}
 		}
 	}
+	// two first users and a pass collecting a closed child of another identity in the same shard (all schedules)
+	c09Churn = true
+	for _, cached := range []bool{false, true} {
+		for _, tagged := range []bool{false, true} {
+			d := &dfsChooser{}
+			for n := 0; n < 20000; n++ {
+				d.depth = 0
+				line := runC09Sub(c, d, cached, tagged, false, 2)
+				c.Cov.Eval(line, strings.Count(line, "@registry.subscope.pre-lock") >= 2)
+				c.Cov.Schedules++
+				if !d.Next() {
+					break
+				}
+			}
+		}
+	}
+	c09Churn = false
 	n := c.N(100, 3000)
 	for i := 0; i < n; i++ {
 		r := c.Rng.Fork()
+		c09Churn = r.Chance(30)
 		line := runC09Sub(c, &randChooser{r: r}, r.Bool(), r.Bool(), r.Bool(), 3)
+		c09Churn = false
 		c.Cov.Eval(line, strings.Count(line, "@registry.subscope.pre-lock") >= 2)
 		c.Cov.Schedules++
 	}
